@@ -88,7 +88,7 @@ esl_msafile_phylip_SetInmap(ESL_MSAFILE *afp)
   if (afp->abc)
     {
       for (sym = 1;   sym < 128; sym++) afp->inmap[sym] = afp->abc->inmap[sym];
-      for (sym = '0'; sym < '9'; sym++) afp->inmap[sym] = eslDSQ_IGNORED;
+      for (sym = '0'; sym <= '9'; sym++) afp->inmap[sym] = eslDSQ_IGNORED;
       afp->inmap['?']  = esl_abc_XGetMissing(afp->abc);
       afp->inmap['~']  = eslDSQ_ILLEGAL;
       afp->inmap['_']  = eslDSQ_ILLEGAL;
